@@ -43,6 +43,8 @@ def preprocess_descriptors(rule, base_url, descriptors):
             continue
         tokens = remove_whitespace(descriptor.value)
         try:
+            if not tokens:
+                raise InvalidValues('no value')
             if descriptor.name in NOT_PRINT_MEDIA:
                 continue
             elif descriptor.name not in DESCRIPTORS[rule]:
